@@ -10,6 +10,8 @@ GProbe == {0, 1, 4, 11, 24, 25, 26, 32, 64, 67, 90, 96, 99, 105, 108, 115, 122, 
            128, 129, 136, 137, 143, 144, 145, 146, 191, 192, 193, 194, 255,
            256, 257, 258, 2047, 2048, 2049, 2050, 2051, 2052, 2303, 2304, 2305, 2306, 4095, 4096, 4352}
 
+GProbeQ == {0, 1, 11, 25, 67, 99, 108, 128, 134, 137, 144, 145, 191, 192, 193, 256, 257, 2047, 2048, 2052, 2304, 2305, 4096}
+
 GenInit == Init /\ hist = <<obs>>
 GenNext == Next /\ hist' = Append(hist, obs')
 GenSpec == GenInit /\ [][GenNext]_<<vars, hist>>
